@@ -183,6 +183,19 @@ def h_intr(cfg):
                 glog.append(('issue', step[0], env.now, None))
                 cover('interrupt-from-cowaiter')
         env.process(cointerrupter())
+    if cfg.get('interrupt_from_callback'):
+        # the interrupt is issued by a plain callback of an ordinary timeout (no process is active at that moment)
+        def issue(_ev):
+            ordinary('callback')
+            vic = box['victim']
+            if vic is not None and vic.is_alive:
+                cause = sym_int('cb')
+                vic.interrupt(cause)
+                issues.append({'cause': cause, 'now': env.now, 'step': step[0], 'pos': len(glog)})
+                glog.append(('issue', step[0], env.now, None))
+                cover('interrupt-from-callback')
+        tcb = env.timeout(num('tcb'))
+        tcb.callbacks.append(issue)
     if not cfg.get('spawn_by_interrupter'):
         box['victim'] = env.process(victim())
         env.process(supervisor())
@@ -273,6 +286,12 @@ def jobs(tier, seed):
                     js.append({'harness': 'intr', 'cfg': cfg, 'weight': 6 ** sum(intr)})
     js.append({'harness': 'intr', 'cfg': {'wait_on': 'timeout', 'handler': 'rewait', 'interrupters': [2], 'cowaiter': False,
                                           'sorts': 'int', 'spawn_by_interrupter': True}, 'weight': 30})
+    # interrupts issued by a plain event callback (no active process)
+    for wait_on in ('timeout', 'event'):
+        for handler in ('finish', 'rewait'):
+            js.append({'harness': 'intr', 'weight': 20,
+                       'cfg': {'wait_on': wait_on, 'handler': handler, 'interrupters': [1], 'cowaiter': False, 'sorts': 'int',
+                               'interrupt_from_callback': True}})
     # the interrupter is itself a waiter of the victim's event, subscribed ahead of the victim
     for handler in ('finish', 'other'):
         js.append({'harness': 'intr', 'weight': 20,
@@ -318,7 +337,7 @@ META = {
                         'c04.resumed-with-the-yielded-events-value', 'c04.no-spurious-resume', 'c04.runtime-error-only-if-dead',
                         'c04.cowaiter-exactly-once', 'c04.started-before-first-interrupt'],
     'required_covers': ['nontrivial', 'several-received', 'pending-discarded', 'dead-victim-refused', 'self-interrupt-refused',
-                        're-yield-of-processed-target', 'victim-raised', 'object-causes'],
+                        're-yield-of-processed-target', 'victim-raised', 'object-causes', 'interrupt-from-callback'],
     'bounds': {'quick': 'one victim waiting on a timeout / shared event / child / any_of or all_of condition over two timeouts; handlers finish, re-wait, wait for another timeout, raise; '
                         '1-2 interrupters issuing <= 2 interrupts at symbolic instants with symbolic causes; optional co-waiter; victim '
                         'spawned and interrupted in one instant; self-interrupt attempt',
